@@ -104,7 +104,7 @@ def s1(ck, an):
     for f in an.functions():
         for e in an.fa(f).effects():
             if e.attr == "_queue_actions":
-                ck.check(f.short in allowed, "OWN", "S1.queue-owner", f.short, e.loc, f"queue touched by {f.short}", f"{f.short} touches the action queue; allowed: {sorted(allowed)}", construct=stmt_text(e.node))
+                ck.check(all(g.short in allowed for g in an.attributed(f)), "OWN", "S1.queue-owner", f.short, e.loc, f"queue touched by {f.short}", f"{f.short} touches the action queue; allowed: {sorted(allowed)}", construct=stmt_text(e.node))
 
 
 def kind_of(an, fa, e) -> str:
